@@ -12,5 +12,10 @@ T = [
  ("cond", "{ c(X,Y) } :- pc(X,Y). { b(Y) } :- pb(Y).\na(X) :- d(X), c(X,Y) : b(Y).\n{ p(X) } :- a(X).\nm(M) :- M = #max { X : p(X) }.", {"traits": ["minmax_chains"]}),
  ("partial", "{ q(X) } :- pq(X).\nc(X) :- d(X), 1 <= #sum { 1,Y : q(Y), l(X,Y) }.\n{ p(X) } :- c(X).\n{ p(X) } :- d2(X).\nm(M) :- M = #max { X : p(X) }.", {"traits": ["minmax_chains"]}),
  ("samename", "{ seat(P,T) } :- ps(P,T). { seat(P,T,S) } :- ps3(P,T,S).\n:- seat(P,T1), seat(P,T2), T1 != T2.\n:- seat(P,T,S1), seat(P,T,S2), S1 != S2.", {"traits": ["symmetry"]}),
+ ("dneg_dep", "{ sel(X) } :- d(X).\nb(X) :- d(X), [[not not|not]] sel(X).\n{ c(X) } :- b(X).\n[[two_c :- c(X), c(Y), X < Y.|m(M) :- M = #max { X : c(X) }.]]", {"traits": ["symmetry", "minmax_chains"]}),
+ ("dneg_loop", "on(X) :- d(X), not not on(X).\n{ e(X,Y) } :- on(X), d(Y).\ntwo_e(X) :- e(X,Y), e(X,Z), Y < Z.", {"traits": ["symmetry"]}),
+ ("input_choice", "{ d(X) } :- e(X).\n{ c(X) } :- d(X).\n[[two_c :- c(X), c(Y), X < Y.|m(M) :- M = #max { X : c(X) }.]]", {"traits": ["symmetry", "minmax_chains"], "in": [["d", 1], ["e", 1]]}),
+ ("hagg_dom", "#[[max|min|sum+|sum|count]] { X : a(G,X) : d(X) } = M :- top(G,M).\na(G,0) :- base(G).\ntwo(G) :- a(G,X), a(G,Y), X < Y.", {"traits": ["symmetry"]}),
+ ("condlit_dom", "{ r(Y) : d(Y) }.\n{ q(P,X) : n(P) } :- d(X), r(Y) : s(X,Y).\n:- q(P1,X), q(P2,X), P1 != P2.", {"traits": ["symmetry"]}),
 ]
 CAP = 40
